@@ -6,7 +6,7 @@ CHECKS = {
     "C01": dict(
         category="exploration",
         technique="Hypothesis grammar-generated UFL forms x random kernel inputs; differential test against an independent numpy reference evaluator with propagated error bounds",
-        text="Generated-input search over cell-integral forms (arity 0-2, all cells, element pool incl. blocked/symmetric/mixed/enriched/Piola/real, affine/non-affine/manifold geometry, several quadrature rules per subdomain, quadrature elements, Bessel functions, user coordinate transforms, argument-dependent conditionals, two-mesh coefficients, a layer of 17 hand-written model-problem templates with generated parameters, four scalar types), preceded by a replay of the committed corpus of earlier failing inputs. Each compiled kernel is compared entrywise with a reference that interprets the UFL-lowered integrand with basix tabulations. Sampling, not proof: holds on everything explored.",
+        text="Generated-input search over cell-integral forms (arity 0-2, all cells, element pool incl. blocked/symmetric/mixed/enriched/Piola/real, affine/non-affine/manifold geometry, several quadrature rules per subdomain, quadrature elements, Bessel functions, user coordinate transforms, argument-dependent conditionals, two-mesh coefficients, Python int literals, atan2, constant-base powers, equal-order mixed spaces, integrands that are sums of independently generated terms, a layer of 17 hand-written model-problem templates with generated parameters, four scalar types), preceded by a replay of the committed corpus of earlier failing inputs. Each compiled kernel is compared entrywise with a reference that interprets the UFL-lowered integrand with basix tabulations. Sampling, not proof: holds on everything explored.",
         note="Trusted: UFL compute_form_data lowering, basix tabulate/make_quadrature, gcc. Tolerance = 8 x first-order running error bound incl. table tolerances max(option, 1e-6/1e-9).",
         design="5/C01",
     ),
@@ -42,7 +42,7 @@ CHECKS["C11"] = dict(
 CHECKS["C06"] = dict(
     category="exploration",
     technique="Hypothesis-generated multi-form modules with mixed integral types and rich subdomain ids; dispatch-model oracle (structural invariants + per-(type,id) differential against the reference evaluator + metadata recomputed from UFL/basix)",
-    text="Modules of 1-3 generated forms (cell/exterior/interior facet/vertex integrals; int, tuple and everywhere ids; repeated ids with different rules; prisms) are compiled; the descriptor's offsets/ids/array lengths are checked, the listed (type,id) set must equal the declared one, and the kernels listed under each (type,id) applied in sequence must equal the reference sum of the integrands declared for that id. Sampling over forms; every declared (type,id) of each sampled form is checked.",
+    text="Modules of 1-3 generated forms (cell/exterior/interior facet/vertex integrals; int, tuple and everywhere ids; repeated ids with different rules; prisms) are compiled; the descriptor's offsets/ids/array lengths are checked, the listed (type,id) set must equal the declared one, and the kernels listed under each (type,id) applied in sequence must equal the reference sum of the integrands declared for that id. A second family compiles generated same-space bilinear forms with part='diagonal' and recomputes the descriptor of the resulting rank-1 object (one argument hash, then the coefficients). Sampling over forms; every declared (type,id) of each sampled form is checked.",
     note="Trusted: UFL integral_data grouping as the meaning of 'declared for an id', basix hashes, the reference evaluator (see C01).",
     design="5/C06",
 )
@@ -112,21 +112,21 @@ CHECKS["C10"] = dict(
 CHECKS["C18"] = dict(
     category="exploration",
     technique="Hypothesis-generated forms/expressions generated with language C and numba; differential execution (numba module executed in plain Python under an exact-size carray shim, and a sample compiled by the real numba.cfunc, vs compiled C kernel) and descriptor comparison",
-    text="For generated forms (all integral types, several ids, math functions, conditionals, min/max/atan2, mixed/blocked elements) and expressions the numba module must be valid Python, import, and its kernels run in plain Python must reproduce the C kernel's tensor on the same inputs; all descriptor metadata must equal the C descriptor. A sample (1 form per shard quick, 4 thorough) is additionally compiled by numba itself (cfunc, nopython) and called through its C pointer; Bessel kernels run with scipy from .deps. Sampling.",
+    text="For generated forms (all integral types, several ids, math functions, conditionals, min/max/atan2, mixed/blocked elements) and expressions the numba module must be valid Python, import, and its kernels run in plain Python must reproduce the C kernel's tensor on the same inputs; all descriptor metadata must equal the C descriptor. Half of the forms are generated twice in one process - default options, then sum_factorization / part='diagonal' / table tolerances (either order for diagonal) - and C and numba are compared for each option set. A sample (1 form per shard quick, 4 thorough) is additionally compiled by numba itself (cfunc, nopython; 150 s budget) and called through its C pointer; Bessel kernels run with scipy from .deps. Sampling.",
     note="Trusted: the C kernels (judged by C01/C02/C04 against the independent evaluator), CPython as the reference Python semantics.",
     design="5/C18",
 )
 CHECKS["C14"] = dict(
     category="exploration",
     technique="harness-owned deterministic scheduler over the children's file-system/sleep/compiler/dlopen sync points; Hypothesis-generated (thorough: enumerated) interleavings; invariants over the recorded history",
-    text="2-3 real processes run jit.compile_forms on one fresh cache directory; every primitive touching the cache blocks until the controller grants it, so the interleaving is chosen by a generated cyclic schedule (the thorough tier also enumerates all two-process interleavings by prefix flipping). The history must show exactly one compiler spawn, no load before link + ready marker, no exception, correct kernels everywhere, and a late request that reuses the cache. Mixed cases request different forms/options on one cache concurrently (one build per distinct module). Half of the three-process cases contain an impatient request whose timeout (1-3 polls) expires while the builder holds the lock: it may raise TimeoutError, everything else must still hold. Interleavings are at sync-point granularity.",
+    text="2-3 real processes run jit.compile_forms on one fresh cache directory; every primitive touching the cache blocks until the controller grants it, so the interleaving is chosen by a generated cyclic schedule (the thorough tier also enumerates all two-process interleavings by prefix flipping). The history must show exactly one compiler spawn, no load before link + ready marker, no exception, correct kernels everywhere, and a late request that reuses the cache. Mixed cases request different forms/options on one cache concurrently - full and diagonal part, and the same form for float32/float64/complex64/complex128 - (one build per distinct module, every process must get a module with its own kernel pointer). Half of the three-process cases contain an impatient request whose timeout (1-3 polls) expires while the builder holds the lock: it may raise TimeoutError, everything else must still hold. Interleavings are at sync-point granularity.",
     note="Trusted: the wrappers see every cache access FFCx/cffi make (observed list in DESIGN.md 3.8); steps inside gcc/ld/the loader are atomic for the model.",
     design="5/C14",
 )
 CHECKS["C15"] = dict(
     category="fault_enumeration",
     technique="fault injection at every builder sync point (SIGKILL), transient compiler/linker failure via CC/LDSHARED wrappers, injected code-generation exceptions, each followed by generated follow-up request sequences; oracles on cache state, process-global state and follow-up outcomes",
-    text="Every sync point of the building process is a crash point and is killed there once per run (enumerated), plus waiter kills and Hypothesis-generated combinations of crash point x 1-3 sequential or concurrent follow-up requests; code generation and C compile/link failures are injected transiently. After a raised failure the lock must be gone, .failed present, logger handlers and stdout untouched and the next request must rebuild and the requests after that rebuild must be served from the cache; after a kill every later request must return a correct kernel or raise TimeoutError.",
+    text="Every sync point of the building process is a crash point and is killed there once per run (enumerated), plus waiter kills and Hypothesis-generated combinations of crash point x 1-3 sequential or concurrent follow-up requests; code generation failures (injected exceptions of seven Exception types; FFCx's own rejection of a form; IR visualisation without pygraphviz, which fails after the lock is taken) and C compile/link failures are injected transiently. After a raised failure the lock must be gone, .failed present, logger handlers and stdout untouched and the next request must rebuild and the requests after that rebuild must be served from the cache; after a kill every later request must return a correct kernel or raise TimeoutError.",
     note="Trusted: crash points = harness sync points; kills inside gcc/ld are represented by the points around their spawn.",
     design="5/C15",
 )
